@@ -141,6 +141,8 @@ def check_sinks(run, repo, eff, allowed):
                 need = 'register of mode %s' % fmt(ev.d['mode'])
             elif ev.kind == 'SpsrWrite':
                 need = 'SPSR'
+            elif ev.kind == 'Raise' and 'SMCException' in ev.text():
+                need = 'Monitor mode (Secure Monitor Call)'
             elif ev.kind == 'ItemStore' or ev.kind == 'ProcStore':
                 need = None
             elif ev.kind == 'ProcCall':
